@@ -441,7 +441,7 @@ func wrongly(got bool) string {
 }
 
 func targetStream(r *lib.Run) {
-	batches := r.Pick(100, 3000)
+	batches := r.Pick(150, 3000)
 	const per = 500
 	r.ForEach("targets", batches, 8, func(i int, rng *rand.Rand) {
 		state := getState()
@@ -481,7 +481,7 @@ func targetStream(r *lib.Run) {
 
 // expandStream: a graph of packages; //..., //p/... and //p:all are expanded under the arguments.
 func expandStream(r *lib.Run) {
-	n := r.Pick(400, 20000)
+	n := r.Pick(600, 20000)
 	r.ForEach("expand", n, 8, func(i int, rng *rand.Rand) {
 		state := getState()
 		defer putState(state)
@@ -551,8 +551,8 @@ func cliArgs(a args) []string {
 }
 
 func e2eStream(r *lib.Run) {
-	n := r.Pick(5, 170)
-	r.ForEach("e2e", n, 5, func(i int, rng *rand.Rand) {
+	n := r.Pick(8, 170)
+	r.ForEach("e2e", n, 8, func(i int, rng *rand.Rand) {
 		var ts []tgt
 		var lts []labellib.Target
 		for _, p := range pkgPool {
